@@ -551,7 +551,9 @@ def parseFormatEnc (cfg : Cfg) (prev : Nat) (s : St) (src : Src) : Out :=
       let s2 := { s1 with curr := Flag.name }
       if s2.path.elems.isEmpty && cfg.eof == -2 then (0, s2, src1) else err .MissingData s2 src1
     | (some c, s1, src1) =>
-      if c != f.sstart then encOption cfg s1 c src1 else encSection cfg s1 src1
+      if !s1.path.elems.isEmpty && f.send != 0 && c == f.send then
+        (Flag.sectEnd, { s1 with curr := Flag.sectEnd }, src1)
+      else if c != f.sstart then encOption cfg s1 c src1 else encSection cfg s1 src1
 
 /-! ### `mpt_parse_format_sep` -/
 inductive SepExit where
